@@ -34,6 +34,8 @@ int fk_feed(int, int, const char *);
 void fk_trailer(void);
 void fk_set_outcomes(const char *);
 int fk_open_sockets(void);
+size_t fk_live_blocks(void);
+int fk_is_live(const void *);
 int fk_sock_ord(int);
 int fk_cur_later(void);
 void fk_cur_writable(void);
@@ -347,6 +349,13 @@ static void case_sc(char ** tok, int ntok)
 
 /* ------------------------------------------------------------------ connect */
 static int conn_done, conn_cbs;
+static int abandoned;	/* the case ended after a fatal event-loop error: account blocks at exit */
+static void abandon_report(void)
+{
+	/* registered before the library registers its own atexit handlers, hence runs after them:
+	 * what is still allocated now was leaked by the failed operation */
+	if (abandoned && fk_live_blocks() != 0) { printf(" !LIVE%lu", (unsigned long)fk_live_blocks()); fflush(stdout); }
+}
 static int cb_conn(void * cookie, int s)
 {
 	(void)cookie;
@@ -387,10 +396,19 @@ again:
 		}
 		run_events();
 		if (run_failed && !conn_done) {
-			/* a fatal error inside the event loop: network_connect.c frees its cookie on
-			 * some of these paths and not on others, and the caller cannot tell which
-			 * (DESIGN C14-G5); nothing more can be done with the cookie */
-			fk_log("abandon"); fflush(stdout); _exit(0);
+			/* a fatal error inside the event loop: network_connect.c has freed its cookie
+			 * (tryconnect / callback_connect free it on every fatal path) and will never
+			 * call back; nothing more can be done with the cookie, but nothing may be
+			 * leaked either: forget our pointer and let the per-case leak check look */
+			fk_log("abandon"); fk_fail_at = 0;
+			/* the error may also have come from the event loop itself with the attempt
+			 * still pending: then the cookie is still allocated and cancelling is the
+			 * documented way to release it.  (If network_connect.c gave up WITHOUT freeing
+			 * it, this cancel acts on stale registrations and the sanitizer says so.) */
+			if (fk_is_live(C)) { fk_log("cancel-after-abandon"); network_connect_cancel(C); }
+			C = NULL;
+			abandoned = 1;
+			return;
 		}
 	}
 	fk_log("fin=%s", conn_done ? "done" : "running");
@@ -436,10 +454,12 @@ int main(void)
 		pid = fork();
 		if (pid == 0) {
 			size_t k;
+			atexit(abandon_report);
 			run_case(lines[i]);
 			if (__lsan_do_recoverable_leak_check()) fputs(" !LEAK", stdout);
 			(void)k;
 			fflush(stdout);
+			if (abandoned) exit(0);	/* let the library's exit handlers run, then count what is left */
 			_exit(0);	/* the leak verdict was taken above; pools are reachable, not leaked */
 		}
 		if (pid < 0) { printf("fork-failed\n"); continue; }
